@@ -307,6 +307,9 @@ def e_import_src_redefines(rng, m):
     if not t:
         return None
     name = rng.choice([t["name"], t["name"].upper()])
+    if not name.replace("-", "").replace("_", "").isalnum() or \
+            not name.isascii():
+        return None         # an earlier edit of a pair made the name ill-formed
     kind = rng.choice(["sectiontype", "abstracttype"])
     import os
     fn = os.path.join(LIB_DIR[0], "lib_%s_%s.xml" % (kind[:3], name))
